@@ -33,6 +33,13 @@ type PipeListener struct {
 	Clients    []*rt.Conn
 	Base       []int64           // bytes the server end had read before it was queued (WebSocket: the opening handshake)
 	WSServers  []*websocket.Conn // server ends of the WebSocket connections, in DialWS order
+	Accepted   map[lime.Transport]bool // transports the server took over through Accept
+}
+
+// WasAccepted tells whether the server end of connection i was handed to the server by Accept
+// (from then on the library owns it; before, it only sits in this listener's queue).
+func (l *PipeListener) WasAccepted(i int) bool {
+	return i < len(l.Transports) && l.Accepted[l.Transports[i]]
 }
 
 func NewPipeListener(cfg *lime.TCPConfig, capacity, backlog int) *PipeListener {
@@ -48,6 +55,10 @@ func (l *PipeListener) Accept(ctx context.Context) (lime.Transport, error) {
 	case <-l.done:
 		return nil, errors.New("pipe listener closed")
 	case t := <-l.ch:
+		if l.Accepted == nil {
+			l.Accepted = map[lime.Transport]bool{}
+		}
+		l.Accepted[t] = true
 		return t, nil
 	}
 }
